@@ -72,8 +72,8 @@ package tree
 //@ func rightmostLeaf
 //@   props C01 C03
 //@   requires x != nil && x.owner != nil && x.owner.nodes[x] && structOK(x.owner, nil)
-//@   loop 0: invariant curr != nil && x.owner.nodes[curr] && curr.height <= x.height
-//@   ensures result != nil && x.owner.nodes[result] && result.height == 0
+//@   loop 0: invariant curr != nil && x.owner.nodes[curr] && curr.height <= x.height && (x != x.owner.root ==> curr != x.owner.root)
+//@   ensures result != nil && x.owner.nodes[result] && result.height == 0 && (x != x.owner.root ==> result != x.owner.root)
 
 //@ func newBtree
 //@   props C03
@@ -154,3 +154,40 @@ package tree
 //@   ensures !result ==> structOK(t, x) && x.n == old(x.n) && (x != t.root ==> (x.pidx > 0 ==> x.parent.children[x.pidx-1].n <= 7) && (x.pidx < x.parent.n ==> x.parent.children[x.pidx+1].n <= 7))
 //@   ensures !result ==> (forall c *node[K, V] {c.parent} :: c.parent == old(c.parent)) && (forall c *node[K, V] {c.pidx} :: c.pidx == old(c.pidx)) && (forall c *node[K, V] {c.n} :: c.n == old(c.n))
 //@   ensures !result ==> (forall c *node[K, V], j int {c.children[j]} :: 0 <= j && j <= 15 ==> c.children[j] == old(c.children[j]))
+
+// merge / mergeTwo are mutually recursive: each is verified against the other's contract.
+//@ pred sibsSmall(x) = (x.pidx > 0 ==> x.parent.children[x.pidx-1].n <= 7) && (x.pidx < x.parent.n ==> x.parent.children[x.pidx+1].n <= 7)
+
+//@ func btree.merge
+//@   props C03
+//@   requires structOK(t, x) && t.nodes[x] && x != t.root && x.n <= 6 && sibsSmall(x)
+//@   modifies t.root, t.nodes, all(x.n), all(x.keys), all(x.values), all(x.children), all(x.parent), all(x.pidx)
+//@   ensures structOK(t, nil)
+//@   ensures forall c *node[K, V] {t.nodes[c]} :: t.nodes[c] ==> old(t.nodes)[c]
+
+//@ func btree.mergeTwo
+//@   props C03
+//@   requires structOK(t, left.n < 7 ? left : right) && t.nodes[left] && t.nodes[right] && left != t.root && right != t.root
+//@   requires left.parent == right.parent && right.pidx == left.pidx + 1 && left.n + right.n <= 14
+//@   modifies t.root, t.nodes, all(left.n), all(left.keys), all(left.values), all(left.children), all(left.parent), all(left.pidx)
+//@   loop 0: invariant 0 <= i && i <= right.n + 1 && (forall c *node[K, V] {c.parent} :: c.parent == ((old(c.parent) == right && t.nodes[c] && old(c.pidx) < i) ? left : old(c.parent)))
+//@   after call removeOne[2]: ghostmap c *node[K, V] . pidx := (old(c.parent) == right && t.nodes[c]) ? old(c.pidx) + old(left.n) + 1 : ((old(c.parent) == old(left.parent) && t.nodes[c] && old(c.pidx) > old(right.pidx)) ? old(c.pidx) - 1 : old(c.pidx))
+//@   after call removeOne[2]: ghost t.nodes := store(t.nodes, right, false)
+//@   ghost t.nodes := (t.root == left && old(left.parent) == old(t.root)) ? store(t.nodes, old(t.root), false) : t.nodes
+//@   ensures structOK(t, nil)
+//@   ensures forall c *node[K, V] {t.nodes[c]} :: t.nodes[c] ==> old(t.nodes)[c]
+
+//@ func btree.removeRightmost
+//@   props C03
+//@   requires structOK(t, nil) && t.nodes[x] && x != t.root
+//@   modifies all(x.n), all(x.keys), all(x.values)
+//@   ensures result2 == nil ==> structOK(t, nil)
+//@   ensures result2 != nil ==> structOK(t, result2) && t.nodes[result2] && result2 != t.root && result2.n < 7 && result2.height == 0
+//@   ensures forall c *node[K, V] {c.n} :: c.height > 0 ==> c.n == old(c.n)
+
+//@ func btree.Delete
+//@   props C03
+//@   requires structOK(t, nil)
+//@   modifies t.size, t.gen, t.root, t.nodes, all(t.root.n), all(t.root.keys), all(t.root.values), all(t.root.children), all(t.root.parent), all(t.root.pidx)
+//@   loop 0: invariant curr != nil && t.nodes[curr]
+//@   ensures structOK(t, nil)
